@@ -786,7 +786,7 @@ theorem run_proj (srv : Headers) (ops : List GOp) : ∀ (g g' : G), gAllOk srv g
 theorem run_reachable (srv : Headers) (cw : Int) (mf : Nat) (hmf : 0 < mf) (ops : List GOp) (g : G)
     (hok : gAllOk srv (ginit cw mf) ops) (hr : grun srv (ginit cw mf) ops = some g) : Reachable g.s := by
   obtain ⟨h1, h2⟩ := run_proj srv ops _ _ hok hr
-  exact ⟨cw, mf, _, hmf, h2, h1⟩
+  exact HC.Props.C09.reachable_of_run cw mf _ g.s hmf h2 h1
 
 /-- the history of a stream is the stream events of the schedule, newest first -/
 theorem run_hist (srv : Headers) (i : Nat) (ops : List GOp) : ∀ (g g' : G), grun srv g ops = some g' →
